@@ -223,6 +223,11 @@ def scale_values(kind, n):
         return 'sy', [''.join(chr(97 + i % 26) for i in range(n)), 1]
     if kind == 'aay-inner':
         return 'aay', [[[1], [i % 256 for i in range(n)], [2]]]
+    if kind == 'g':
+        return 'gy', ['i' * n, 5]
+    if kind == 'v-long-sig':
+        return 'v', [R.Var('(' + 'y' * (n - 2) + ')',
+                           [i % 256 for i in range(n - 2)])]
     raise ValueError(kind)
 
 
@@ -236,7 +241,11 @@ def _task_scale(task):
     from mcx import scale
     quick, kind = task
     res = core.Result()
-    for n in scale.ladder(8193 if quick else 65537):
+    ns = scale.ladder(8193 if quick else 65537)
+    if kind in ('g', 'v-long-sig'):
+        # signatures: at most 255 characters
+        ns = [126, 127, 128, 129, 130, 191, 192, 200, 254, 255]
+    for n in ns:
         sig, refvals = scale_values(kind, n)
         ts = R.parse_sig(sig)
         res.count('states')
@@ -285,7 +294,8 @@ def run(ctx):
         '; doubles compare by bit pattern']
     ctx.map(_task, CS.partition(Kf, Kr, max(ctx.jobs * 4, 1)))
     ctx.map(_task_special, [0])
-    ctx.map(_task_scale, [(ctx.quick, k) for k in SCALE_KINDS])
+    ctx.map(_task_scale, [(ctx.quick, k) for k in SCALE_KINDS
+                          + ['g', 'v-long-sig']])
 
 
 def replay(data):
